@@ -259,7 +259,13 @@ def _nd_own(ctx, R, roles, T):
     q = fl.qualname
     snd = callee_nodes(ctx, fl, roles.send_locked)
     reads = [(n, c) for (n, c) in callee_nodes(ctx, fl, ru) if snd and g.dominates([snd[0][0]], n)]
-    R.count("ND-own[%s]" % roles.tag, len(reads), 1)
+    direct = [(n, c) for (n, c) in callee_nodes(ctx, fl, roles.pump) if snd and g.dominates([snd[0][0]], n)] if not reads else []
+    if roles.dev["_okay"] is not None and callee_nodes(ctx, fl, roles.dev["_okay"]):
+        direct = []            # a flush that acknowledges by itself is a different design: not decided here (the count guard below ends the run as an analysis error)
+    for n, c in direct:
+        R.fail("ND-own", "%s|awaits-through-pump" % q, "the flush awaits the device's answer from the pump directly instead of through _read_until: a WRTE the device sends before its OKAY is delivered "
+               "here without being acknowledged (only _read_until sends the OKAY a WRTE is owed), so the device stalls and the rest of its reply never arrives", fl.loc(n.ast))
+    R.count("ND-own[%s]" % roles.tag, len(reads) + len(direct), 1)
     info = None
     for p in fl.params:
         if "hidden_helpers._FileSyncTransactionInfo" in ctx.cg.var_types.get(fl, {}).get(p, ()):
